@@ -21,12 +21,13 @@ import (
 // C07 — backends behave as a map with per-entry expiry (DESIGN §C07).
 
 type bop struct {
-	name string
-	kind string // write read readskip delete expireall deleteall load store advance cleanup
-	key  int
-	val  int
-	ttl  time.Duration
-	adv  time.Duration
+	name   string
+	kind   string // write read readskip delete expireall deleteall load store advance cleanup
+	key    int
+	val    int
+	ttl    time.Duration
+	adv    time.Duration
+	nested bool // write: default TTL requested inside a scope that carries a per-call TTL
 }
 
 type bstate struct {
@@ -99,6 +100,7 @@ func c07Alphabet(keys [][]byte, loadStore bool) []bop {
 		bop{name: "DeleteAll", kind: "deleteall"},
 		bop{name: "Advance(6m)", kind: "advance", adv: 6 * time.Minute},
 		bop{name: "Walk(callback fails at the first entry)", kind: "walkfail"},
+		bop{name: "Write(k0,3,ttl=default inside a -10s scope)", kind: "write", key: 0, val: 3, nested: true},
 	)
 
 	for k := range keys {
@@ -251,6 +253,11 @@ func (s *bstate) applyRaw(o bop) (string, bool) {
 			wctx := ctx
 			if o.ttl != 0 {
 				wctx = cache.WithTTL(ctx, o.ttl, false)
+			}
+
+			if o.nested {
+				// the inner scope asks for the default TTL again: the outer per-call TTL must not leak into it
+				wctx = cache.WithTTL(cache.WithTTL(ctx, -10*time.Second, false), cache.DefaultTTL, false)
 			}
 
 			if err := s.b.Write(wctx, key, o.val); err != nil {
